@@ -330,6 +330,27 @@ fn m10_two_writers_one_credit() {
     report("m10_two_writers_one_credit");
 }
 
+/// 11. writer wants two units from zero ∥ two threads each granting one unit
+#[test]
+fn m11_writer_vs_two_granting_threads() {
+    model(|| {
+        let p = parts(0);
+        let Parts { stream, data, .. } = p;
+        let credit = data.psh_send_remaining.clone();
+        let data = Arc::new(data);
+        let d2 = data.clone();
+        let w = thread::spawn(move || writer_obtains(&stream, 2));
+        let a = thread::spawn(move || d2.acknowledge(1));
+        data.acknowledge(1);
+        a.join().expect("ack");
+        let r = w.join().expect("writer");
+        assert_eq!(r, [true, true]);
+        assert_eq!(credit.load(Ordering::SeqCst), 0, "2 granted - 2 sent");
+        outcome(format!("{r:?}"));
+    });
+    report("m11_writer_vs_two_granting_threads");
+}
+
 // ---- flow-id allocation under concurrent opens (supplements the scheduler-level checks)
 
 #[derive(Debug)]
